@@ -1,6 +1,8 @@
 package gen
 
 import (
+	"strings"
+
 	"github.com/akrennmair/updog/verifharness/model"
 	"pgregory.net/rapid"
 )
@@ -206,4 +208,34 @@ func UnknownSometimes(t *rapid.T) ExprOpts {
 		return ExprOpts{UnknownPct: 15}
 	}
 	return ExprOpts{}
+}
+
+// UTF8Expr replaces invalid UTF-8 in all leaf strings (protobuf string fields
+// cannot carry invalid UTF-8, so cases that travel over gRPC are sanitised by
+// construction).
+func UTF8Expr(e model.Expr) model.Expr {
+	out := model.Expr{Op: e.Op, Col: strings.ToValidUTF8(e.Col, "?"), Val: strings.ToValidUTF8(e.Val, "?")}
+	for _, s := range e.Subs {
+		out.Subs = append(out.Subs, UTF8Expr(s))
+	}
+	return out
+}
+
+// UTF8Spec sanitises a dataset spec in place the same way.
+func UTF8Spec(s *DataSpec) {
+	s.rows = nil
+	if s.Recipe != nil {
+		for i := range s.Recipe.Cols {
+			s.Recipe.Cols[i].Name = strings.ToValidUTF8(s.Recipe.Cols[i].Name, "?")
+			s.Recipe.Cols[i].Prefix = strings.ToValidUTF8(s.Recipe.Cols[i].Prefix, "?")
+		}
+		return
+	}
+	for i, r := range s.Explicit {
+		nr := model.Row{}
+		for k, v := range r {
+			nr[strings.ToValidUTF8(k, "?")] = strings.ToValidUTF8(v, "?")
+		}
+		s.Explicit[i] = nr
+	}
 }
